@@ -723,6 +723,7 @@ def roots(tier, seed):
             out.append(r)
     for k in CLASSES:
         out.append(dict(kind="load-over", cls=k))
+        out.append(dict(kind="construct-from", cls=k))
     return out
 
 
@@ -800,6 +801,100 @@ def _load_over(root, ctx):
         shutil.rmtree(tmp, ignore_errors=True)
 
 
+# ---------------------------------------------------------------------------
+# objects constructed FROM values that something else still holds
+#
+# "Settings objects do not share state": an object built from a value the caller keeps, from an attribute
+# of another settings object, or from the same value as a sibling, is independent of all of them - an
+# in-place change on either side is not seen on the other.
+
+CONSTRUCT_VALUES = {
+    "window_type_and_width": [lambda: ["tukey", 0.2]],
+    "smoothing": [lambda: dict(operator="konno_and_ohmachi", bandwidth=30, center_frequencies_in_hz=list(CF_LIST)),
+                  lambda: dict(operator="parzen", bandwidth=0.5, center_frequencies_in_hz=np.array([1.0, 2.0, 4.0, 8.0]))],
+    "fft_settings": [lambda: {"n": 4096}],
+    "filter_corner_frequencies_in_hz": [lambda: [1.0, 20.0], lambda: np.array([0.5, 3.0])],
+    "azimuths_in_degrees": [lambda: np.arange(0, 180, 45), lambda: np.array([22.5, 67.5, 112.5, 157.5]),
+                            lambda: np.linspace(0.0, 150.0, 6), lambda: [0.0, 90.0]],
+}
+
+
+def _inplace_edits(value):
+    """Every in-place edit of MUTS that applies to this value: list of (description, function(value))."""
+    out = []
+    if isinstance(value, (list, np.ndarray)):
+        for idx in (0, len(value) - 1):
+            new = 0.5 if isinstance(value[idx], str) or value[idx] is None else (
+                77 if isinstance(value, np.ndarray) and value.dtype.kind in "iu" else 77.25)
+            if isinstance(value[idx], str):
+                continue
+            out.append((f"[{idx}] = {new}", (lambda v, i=idx, n=new: v.__setitem__(i, n))))
+    elif isinstance(value, dict):
+        for key, inner in value.items():
+            if isinstance(inner, (list, np.ndarray)):
+                out.append((f"[{key!r}][0] = 9.75", (lambda v, k=key: v[k].__setitem__(0, 9.75))))
+            elif isinstance(inner, (int, float)) and not isinstance(inner, bool):
+                out.append((f"[{key!r}] = {inner * 2}", (lambda v, k=key, n=inner * 2: v.__setitem__(k, n))))
+    return out
+
+
+def _construct_from(root, ctx):
+    k = root["cls"]
+    restore_defaults()
+    probe = CLS[k]()
+    for attr, factories in CONSTRUCT_VALUES.items():
+        if not hasattr(probe, attr):
+            continue
+        for fi, make in enumerate(factories):
+            for desc, edit in _inplace_edits(make()):
+                for route in ("caller-keeps-value", "from-other-object:edit-new", "from-other-object:edit-old",
+                              "siblings-from-one-value"):
+                    ctx.count("states")
+                    ctx.count("transitions", 2)
+                    detail = dict(cls=k, attribute=attr, value=repr(make())[:200], in_place_edit=desc, route=route)
+                    try:
+                        if route == "caller-keeps-value":
+                            v = make()
+                            a = CLS[k](**{attr: v})
+                            watched, want = a, content(a)
+                            edit(v)
+                        elif route.startswith("from-other-object"):
+                            a = CLS[k](**{attr: make()})
+                            b = CLS[k](**{attr: getattr(a, attr)})
+                            if route.endswith("edit-new"):
+                                watched, want = a, content(a)
+                                edit(getattr(b, attr))
+                            else:
+                                watched, want = b, content(b)
+                                edit(getattr(a, attr))
+                        else:
+                            v = make()
+                            a = CLS[k](**{attr: v})
+                            b = CLS[k](**{attr: v})
+                            watched, want = a, content(a)
+                            edit(getattr(b, attr))
+                    except Exception:       # noqa: BLE001
+                        ctx.violation(f"C15:construct-from:{k}:{attr}:raises", root, detail=detail,
+                                      observed=traceback.format_exc()[-1200:],
+                                      explanation="constructing a settings object from a valid value raised")
+                        continue
+                    got = content(watched)
+                    ctx.count("validated")
+                    ctx.count("construct_from_cases")
+                    ctx.outcome(("construct-from", k, attr, fi, desc, route))
+                    if got != want:
+                        ctx.violation(f"C15:construct-from:{k}:{attr}:{route}:shares-state", root, detail=detail,
+                                      expected=want.get(attr), observed=got.get(attr),
+                                      explanation="an in-place change made through one holder of a value changed a "
+                                                  "settings object that was constructed from that value")
+    fresh = fresh_snaps()
+    if fresh != PRISTINE:
+        ctx.violation(KEY_DEFAULTS, root, detail=dict(cls=k, family="construct-from"),
+                      explanation="after the construct-from cases a freshly constructed object no longer has the "
+                                  "default values")
+        restore_defaults()
+
+
 LOAD_OVER_CASES = [
     # (attribute held before, its value, attribute saved in the file, its value)
     ("fft_settings", {"n": 4096, "norm": "ortho"}, "fft_settings", {"n": 8192}),
@@ -819,6 +914,9 @@ def run_root(root, ctx, tier):
     """Explore one root in a forked child so that nothing it does to class defaults survives."""
     if root.get("kind") == "load-over":
         _load_over(root, ctx)
+        return
+    if root.get("kind") == "construct-from":
+        _construct_from(root, ctx)
         return
     r, w = os.pipe()
     pid = os.fork()
@@ -868,7 +966,7 @@ def describe(tier):
              "Load (same class), Read (dispatching reader), Proc((pre)process 2 tiny recordings)} on <= 3 live "
              "objects; states deduplicated on (typed attribute snapshots, aliasing signature, file contents, "
              "freshly constructed defaults); a non-trivial case is a distinct (class, content) that was saved "
-             "and read back both ways; every root runs in its own forked process",
+             "and read back both ways; every root runs in its own forked process; family construct-from: per class, attribute and in-place edit, an object is built from a value the caller keeps / from another object's attribute / as a sibling from one value, the edit is made through the other holder and the object must not change",
         bounds=dict(depth="2 quick; 3 thorough with the last level restricted to Mut/Save/Load/Read/New",
                     live_objects=MAXOBJ, classes=len(CLASSES)),
         exhaustive=True,
